@@ -145,7 +145,8 @@ std::string res_json(const Result& r)
 // first purging call, so size() is re-read after the probes (like an "obs" line)
 bool is_observer(const std::string& op)
 {
-    return op == "size" || op == "empty" || op == "capacity";
+    // clear(): ut_map::clear first asks empty() in a critical section of its own, which does not purge either
+    return op == "size" || op == "empty" || op == "capacity" || op == "clear";
 }
 void put(const std::string& s)
 {
